@@ -79,6 +79,7 @@ type Workload struct {
 	Rush      bool      `json:"rush"`        // before the scripts: all clients attach one brand-new key at the same time
 	Watchers  int       `json:"watchers"`    // raw WatchDocument streams on document 0 that come and go while the scripts run
 	WatchGap  int       `json:"watchgap"`    // base life time of a watch stream (x 1ms, varied per loop)
+	Yield     uint64    `json:"yield"`       // != 0: pseudo-random yields/sleeps injected at every lock boundary and storage call of the sync path
 }
 
 // WStep is one step of a client script.
@@ -104,6 +105,9 @@ func genWorkload() *rapid.Generator[Workload] {
 			Rush:      rapid.IntRange(0, 1).Draw(t, "rush") == 0,
 			Watchers:  max(0, rapid.IntRange(-3, 6).Draw(t, "watchers")),
 			WatchGap:  rapid.IntRange(0, 40).Draw(t, "watchgap"),
+		}
+		if rapid.IntRange(0, 2).Draw(t, "yieldon") > 0 {
+			w.Yield = rapid.Uint64Range(1, 1<<40).Draw(t, "yield")
 		}
 		if rapid.IntRange(0, 2).Draw(t, "snap") > 0 {
 			w.Interval = int64(rapid.IntRange(1, 4).Draw(t, "interval"))
@@ -344,6 +348,42 @@ func execute(w Workload) (fail *kit.Failure, ev map[string]int, hist []string) {
 	baseGoroutines := serverGoroutines()
 	world.Rec.SetSink(r.sink)
 	defer world.Rec.SetSink(nil)
+	// lock-order recorder (hook H3) for the whole workload; yield injection at
+	// lock boundaries and storage calls (H2) only during the parallel phase
+	world.Locks.Install()
+	world.Locks.Reset(0)
+	defer func() {
+		world.Locks.Reset(0)
+		s.DB.SetHook(nil)
+	}()
+	defer func() {
+		if v := world.Locks.Violations(); len(v) > 0 {
+			if fail == nil {
+				fail = kit.Failf("LOCK-ORDER", "%d violations of the lock discipline, first: %s", len(v), v[0])
+			} else {
+				fail.Msg += fmt.Sprintf("\n(lock discipline: %d violations recorded, first: %s)", len(v), v[0])
+			}
+		}
+		events, yields, classes, depth := world.Locks.Stats()
+		if r.ev != nil {
+			r.ev["lock_events"] += int(events)
+			r.ev["yields_injected"] += int(yields)
+			if depth >= 3 {
+				r.ev["lock_nesting>=3"]++
+			}
+			if depth >= 4 {
+				r.ev["lock_nesting>=4"]++
+			}
+			for k := range classes {
+				if strings.HasPrefix(k, "nest:") {
+					r.ev[k]++
+				}
+			}
+			if w.Yield != 0 {
+				r.ev["yield_injection_on"]++
+			}
+		}
+	}()
 	defer func() {
 		ev, hist = r.ev, r.log
 		if fail != nil && fail.Kind == "DEADLOCK" {
@@ -487,16 +527,33 @@ func execute(w Workload) (fail *kit.Failure, ev map[string]int, hist []string) {
 			}
 		}()
 	}
+	if w.Yield != 0 {
+		world.Locks.SetYield(w.Yield)
+		var n atomic.Uint64
+		s.DB.SetHook(func(_ context.Context, _ string, _ world.Phase, _ any) error {
+			x := (n.Add(1) + w.Yield) * 0x9E3779B97F4A7C15
+			x ^= x >> 31
+			switch {
+			case x%32 == 0:
+				gotime.Sleep(gotime.Duration(30+(x>>8)%300) * gotime.Microsecond)
+			case x%3 == 0:
+				runtime.Gosched()
+			}
+			return nil
+		})
+	}
 	close(start)
 	done := make(chan struct{})
 	go func() { wg.Wait(); close(scriptsDone); bg.Wait(); close(done) }()
 	select {
 	case <-done:
+		world.Locks.SetYield(0)
+		s.DB.SetHook(nil)
 	case <-gotime.After(60 * gotime.Second):
 		close(stop)
 		dump := goroutineDump()
 		if n := strings.Count(dump, "pkg/locker"); n > 0 {
-			return kit.Failf("DEADLOCK", "requests did not return within 60 s; %d goroutines are parked in pkg/locker:\n%s", n, abbreviate(dump, 6000)), r.ev, r.log
+			return kit.Failf("DEADLOCK", "requests did not return within 60 s; %d goroutines are parked in pkg/locker:\nlocks held: %s\n%s", n, world.Locks.HeldSummary(), abbreviate(dump, 6000)), r.ev, r.log
 		}
 		return kit.Failf("HARNESS", "workload did not finish within 60 s and no goroutine is parked in the lockers"), r.ev, r.log
 	}
@@ -942,7 +999,8 @@ func TestC04Par(t *testing.T) {
 
 func TestReplay(t *testing.T) {
 	kit.Replay(t, map[string]kit.Replayer{
-		"lifecase": replayLife,
+		"lifecase":   replayLife,
+		"lockscript": replayLockScript,
 		"workload": func(raw json.RawMessage) *kit.Failure {
 			var w Workload
 			if err := json.Unmarshal(raw, &w); err != nil {
